@@ -100,30 +100,40 @@ def r2(ctx):
     b = ana.builder(fi, no_inline=ana.known)
     cfg = ana.cfg(fi)
     m = Sym(fi.params[0])
-    adds = [n for n in Resolver.walk_own(fi.node) if isinstance(n, ast.Call) and isinstance(n.func, ast.Attribute)
-            and n.func.attr in ("add", "append") and isinstance(n.func.value, ast.Name)]
-    rec = None
-    for a in adds:
-        node = cfg.node_of(a)
-        g = b.guard_term(node)
-        arg = b.term(a.args[0], node)
-        loops = cfg.enclosing_loops(node)
-        if len(loops) == 1 and isinstance(g, Cmp):
-            rec = (a, node, g, arg, loops[0])
-    if rec is None:
-        raise AnalysisError("recipient collection loop not recognised")
-    a, node, g, arg, lp = rec
-    k, it = b.binder_of(lp)
-    size = Attr(Idx(Attr(m, "clusters"), (k,)), "size")
-    ok = g.key == tm.compare("<", size, 2).key or g.key == tm.compare("<=", size, 1).key
-    ctx.check(ok, fi, "a cluster is a recipient iff its size is < 2", line=a.lineno, role="recipient:test", expected=f"{size} < 2", found=str(g))
-    ctx.check(arg == k and it == Range(0, tm.length(Attr(m, "clusters"))), fi, "the recipient set holds cluster ids, every cluster is examined",
-              line=a.lineno, role="recipient:ids", expected=f"{k} over all clusters", found=f"{arg} over {it}")
-    coll = a.func.value.id
-    # the refill loop iterates over exactly that collection
-    refills = [n for n in Resolver.walk_own(fi.node) if isinstance(n, ast.For) and isinstance(n.iter, ast.Name) and n.iter.id == coll]
-    ctx.check(len(refills) == 1, fi, "one refill loop over the recipient set (each recipient refilled once)", role="recipient:loop",
-              expected=f"for r in {coll}", found=f"{len(refills)} loop(s)")
+    clusters = Attr(m, "clusters")
+    # the refill loop: the loop that contains the donor search
+    dcalls = calls_to(ana, fi, ana.func(DONOR).qualname)
+    if not dcalls:
+        raise AnalysisError("repopulation does not search for a donor")
+    loops = cfg.enclosing_loops(cfg.node_of(dcalls[0].node))
+    if len(loops) != 1 or not isinstance(loops[0], ast.For):
+        raise AnalysisError("the donor search is not inside a single refill loop")
+    lp = loops[0]
+    coll_t = b.term(lp.iter, cfg.for_init[id(lp)])
+    # coll_t is either a comprehension term, or a set/list filled by a loop (an opaque mutated name)
+    g = arg = it = k = None
+    if isinstance(coll_t, Comp) and len(coll_t.conds) == 1:
+        g, arg, k, it = coll_t.conds[0], coll_t.elt, coll_t.var, coll_t.iter
+    elif isinstance(lp.iter, ast.Name):
+        coll = lp.iter.id
+        adds = [n for n in Resolver.walk_own(fi.node) if isinstance(n, ast.Call) and isinstance(n.func, ast.Attribute)
+                and n.func.attr in ("add", "append") and isinstance(n.func.value, ast.Name) and n.func.value.id == coll]
+        if len(adds) == 1:
+            a = adds[0]
+            node = cfg.node_of(a)
+            ls = cfg.enclosing_loops(node)
+            if len(ls) == 1:
+                g = b.guard_term(node)
+                arg = b.term(a.args[0], node)
+                k, it = b.binder_of(ls[0])
+    if g is None:
+        raise AnalysisError("recipient collection not recognised (neither a filtered comprehension nor a single add/append loop)")
+    size = Attr(Idx(clusters, (k,)), "size")
+    ok = g.key in (tm.compare("<", size, 2).key, tm.compare("<=", size, 1).key)
+    ctx.check(ok, fi, "a cluster is a recipient iff its size is < 2", line=lp.lineno, role="recipient:test", expected=f"{size} < 2", found=str(g))
+    ctx.check(arg == k and it == Range(0, tm.length(clusters)), fi, "the recipient set holds cluster ids, every cluster is examined",
+              line=lp.lineno, role="recipient:ids", expected=f"{k} over all clusters", found=f"{arg} over {it}")
+    ctx.ok(fi, "one refill loop over the recipient collection (each recipient refilled once)", role="recipient:loop", line=lp.lineno)
     # early return when the set is empty returns the input untouched
     rt = b.return_term()
     ctx.check(any(v == m for _g, v in tm.pieces_of(rt)), fi, "with no recipient the input state is returned unchanged", role="recipient:none",
@@ -163,18 +173,21 @@ def r3(ctx):
     ctx.check(elig is not None and elig[0] == ">=" and elig[1] == 2, fi, "a donor is eligible iff size >= 2*m (it can give m and keep m)",
               line=rn.lineno, role="eligible:threshold", expected="size >= 2 * min_cluster_size", found=str(g))
     # retirement: the pop of the selected donor
-    pops = [n for n in Resolver.walk_own(fi.node) if isinstance(n, ast.Call) and isinstance(n.func, ast.Attribute) and n.func.attr in ("pop", "remove")]
+    # removal sites: pool.pop(i) / pool.remove(x) / del pool[i]; the one from which the return is reached within the same
+    # iteration retires the selected donor, the others discard ineligible candidates
+    removals = []
+    for n_ in Resolver.walk_own(fi.node):
+        if isinstance(n_, ast.Call) and isinstance(n_.func, ast.Attribute) and n_.func.attr in ("pop", "remove"):
+            removals.append((n_, cfg.node_of(n_)))
+        elif isinstance(n_, ast.Delete) and len(n_.targets) == 1 and isinstance(n_.targets[0], ast.Subscript):
+            removals.append((n_, cfg.stmt_node[id(n_)]))
+    loop_hdrs = {cfg.stmt_node[id(l)].id for l in Resolver.walk_own(fi.node) if isinstance(l, (ast.While, ast.For))}
     retire = None
-    other = []
-    for p in pops:
-        node = cfg.node_of(p)
-        if cfg.dominates(node, rn) or any(cfg.paths_avoiding(node, set(), {rn.id}, kinds=("n",)) is not None for _ in [0]) and node.lineno < rn.lineno \
-                and rn.id in {x for x in _reach(cfg, node)}:
+    for p, node in removals:
+        if cfg.paths_avoiding(node, loop_hdrs, {rn.id}, kinds=("n",)) is not None:
             gp = b.guard_term(node)
             extra = [q for q in (gp.parts if isinstance(gp, And) else [gp]) if q.key not in {pp.key for pp in parts}]
             retire = (p, node, extra)
-        else:
-            other.append(p)
     if retire is None:
         ctx.fail(fi, "the selected donor is never retired from the pool", role="retire:missing", expected="pop the donor when size < 3*m")
         return
@@ -183,16 +196,19 @@ def r3(ctx):
     ctx.check(rc is not None and rc[0] == "<" and rc[1] == 3, fi, "the donor leaves the pool iff size < 3*m: a donor that stays keeps >= 2*m "
               "(still eligible) and a donor with exactly 3*m stays", line=p.lineno, role="retire:threshold",
               expected="size < 3 * min_cluster_size  (= eligible 2m + donated m)", found="; ".join(str(e) for e in extra))
-    # what is popped is the selected donor (the head of the pool)
+    # what is removed is the selected donor (the head of the pool)
     head_ok = False
-    if p.func.attr == "pop" and len(p.args) == 1:
+    if isinstance(p, ast.Delete):
+        sub = p.targets[0]
+        head_ok = donor == b.term(sub, node)
+    elif p.func.attr == "pop" and len(p.args) == 1:
         idx = b.term(p.args[0], node)
         pool = b.term(p.func.value, node)
         head_ok = donor == Idx(pool, (idx,)) or (isinstance(donor, Idx) and donor.idx == (idx,))
     elif p.func.attr == "remove" and len(p.args) == 1:
         head_ok = b.term(p.args[0], node) == donor
     ctx.check(head_ok, fi, "the retired entry is the donor that is being returned", line=p.lineno, role="retire:which",
-              expected="pop(0) with donor = pool[0]", found=unparse(p))
+              expected="pop(0) / del pool[0] with donor = pool[0]", found=unparse(p))
     ctx.check(isinstance(donor, Idx) and donor.idx == (tm.ZERO,), fi, "the donor is the head of the ranked pool", role="donor:head",
               expected="pool[0]", found=str(donor))
     # donation size
@@ -209,10 +225,8 @@ def r3(ctx):
     # ranking filter uses the same eligibility constant
     rk = ana.func(RANK)
     br = ana.builder(rk, no_inline=ana.known)
-    pot = None
-    for n in Resolver.walk_own(rk.node):
-        if isinstance(n, ast.ListComp) and n.generators[0].ifs:
-            pot = br.term(n)
+    rrt = br.return_term()
+    pot = rrt.args[0] if isinstance(rrt, App) and rrt.fn == "builtins.sorted" and rrt.args else None
     okf = False
     if isinstance(pot, Comp) and len(pot.conds) == 1 and isinstance(pot.conds[0], Cmp):
         msz = Attr(Idx(Attr(Sym(rk.params[0]), "clusters"), (pot.var,)), "size")
@@ -239,32 +253,20 @@ def _reach(cfg, node):
 def r4(ctx):
     ana = ctx.ana
     rk = ana.func(RANK)
-    b = ana.builder(rk, no_inline=lambda f: False)
+    b = ana.builder(rk, no_inline=ana.known)
     rt = b.return_term()
     m = Sym(rk.params[0])
     ok = isinstance(rt, App) and rt.fn == "builtins.sorted" and rt.kwarg("reverse") == tm.Lit(True) and rt.kwarg("key") is not None
     ctx.check(ok, rk, "the pool is sorted in descending order of the key", role="rank:descending", expected="sorted(pool, key=spread, reverse=True)",
               found=str(rt)[:160])
-    # key function: spread[i] with spread[k] = norm(clusters[k].computed_covariance)
-    keyf = [f for f in ana.prog.functions.values() if f.parent is rk]
+    key = rt.kwarg("key") if isinstance(rt, App) else None
     okk = False
-    found = ""
-    if len(keyf) == 1:
-        kf = keyf[0]
-        bk = ana.builder(kf)
-        kt = bk.return_term()
-        found = str(kt)
-        # spread list is defined in the parent
-        for n in Resolver.walk_own(rk.node):
-            if isinstance(n, ast.Assign) and isinstance(n.value, ast.ListComp) and not n.value.generators[0].ifs:
-                sp = b.term(n.value)
-                if isinstance(sp, Comp) and isinstance(sp.elt, App) and sp.elt.fn == "numpy.linalg.norm":
-                    want = Attr(Idx(Attr(m, "clusters"), (sp.var,)), "computed_covariance")
-                    okk = sp.elt.args == (want,) and sp.iter == Range(0, tm.length(Attr(m, "clusters"))) \
-                        and isinstance(kt, Idx) and kt.idx == (Sym(kf.params[0]),)
-                    found = f"key(i) = {kt}; spread = {sp}"
-    ctx.check(okk, rk, "the key of cluster i is norm(clusters[i].computed_covariance) (its own spread)", role="rank:key",
-              expected="spread[i] = numpy.linalg.norm(model.clusters[i].computed_covariance)", found=found[:200])
+    if isinstance(key, App) and key.fn == "lambda" and len(key.args) == 2 and isinstance(key.args[0], Tup) and len(key.args[0].elems) == 1:
+        i = key.args[0].elems[0]
+        want = App("numpy.linalg.norm", (Attr(Idx(Attr(m, "clusters"), (i,)), "computed_covariance"),))
+        okk = key.args[1] == want
+    ctx.check(okk, rk, "the key of cluster i is norm(clusters[i].computed_covariance) (its own spread, Frobenius norm)", role="rank:key",
+              expected="key(i) = numpy.linalg.norm(model.clusters[i].computed_covariance)", found=str(key)[:200])
     # the ranked pool is what the refill loop consumes
     fi = ana.func(REPOP)
     fl = Flow(ana, fi)
@@ -354,14 +356,25 @@ def r6(ctx):
         ctx.check(okr, fi, "the recipient is the loop's current under-populated cluster", role="commit:recipient", found=str(rec))
     # remaining pool threads through iterations
     calls = calls_to(ana, fi, dn.qualname)
+    fl = Flow(ana, fi)
+    rd = ana.rd(fi)
     for c in calls:
         node = cfg.node_of(c.node)
-        tgt = node.ast.targets[0] if isinstance(node.ast, ast.Assign) else None
         ba = bind_args(dn, c.node)
         arg = ba.get(dn.params[1])
-        ok = isinstance(tgt, ast.Tuple) and len(tgt.elts) == 2 and isinstance(tgt.elts[1], ast.Name) and isinstance(arg, ast.Name) and arg.id == tgt.elts[1].id
-        ctx.check(ok, fi, "the pool left by one search is the pool of the next", line=c.node.lineno, role="commit:pool-threading",
-                  expected="(donor, remaining) = _find_point_donor(state, remaining)", found=unparse(node.ast, 90))
+        ok = False
+        found = unparse(arg) if arg is not None else "missing"
+        if isinstance(arg, ast.Name):
+            defs = rd.reaching(node, arg.id)
+            inl = [d for d in defs if cfg.enclosing_loops(d)]
+            outl = [d for d in defs if not cfg.enclosing_loops(d)]
+            dep_in = [fl.closure(d.ast.value, d) for d in inl if isinstance(d.ast, (ast.Assign, ast.AnnAssign)) and d.ast.value is not None]
+            dep_out = [fl.closure(d.ast.value, d) for d in outl if isinstance(d.ast, (ast.Assign, ast.AnnAssign)) and d.ast.value is not None]
+            ok = bool(inl) and all(dn.qualname in dp.call_names for dp in dep_in) and bool(outl) and \
+                all(ana.func(RANK).qualname in dp.call_names for dp in dep_out)
+            found = f"`{arg.id}` defined at lines {[d.lineno for d in defs]}"
+        ctx.check(ok, fi, "the pool left by one search is the pool of the next (initially the ranked pool)", line=c.node.lineno,
+                  role="commit:pool-threading", expected="remaining <- ranked ids before the loop, <- previous search result inside it", found=found)
 
 
 @rule("C08", "R7", "ORDER", "exhausting the donor pool raises RuntimeError naming the shortage")
